@@ -189,11 +189,11 @@ Definition get_solidity_major_minor_patch_version (solidity_version_str : string
    [-2^31, 2^31-1]; every Err(..) of Rust (empty, sign only, non-digit, overflow) is the
    Panic of the `.unwrap()` that follows in utils.rs.  The scanner above only produces
    digit strings and "" (between consecutive dots), so the sign cases never arise there. *)
-Fixpoint digits_val (s : string) (acc : Z) : option Z :=
+Fixpoint digits_val (s : string) (acc : N) : option N :=
   match s with
   | EmptyString => Some acc
   | String c r =>
-      if is_digit c then digits_val r (acc * 10 + (Z.of_N (N_of_ascii c) - 48))%Z else None
+      if is_digit c then digits_val r (10 * acc + (N_of_ascii c - 48)) else None
   end.
 
 Definition parse_i32 (s : string) : res Z :=
@@ -204,10 +204,10 @@ Definition parse_i32 (s : string) : res Z :=
       let neg := n =? 45 in
       let ds := if (n =? 45) || (n =? 43) then r else s in
       if is_empty ds then Panic "parse::<i32>: sign without digits" else
-      match digits_val ds 0%Z with
+      match digits_val ds 0 with
       | None => Panic "parse::<i32>: invalid digit"
       | Some v =>
-          let v' := if neg then (- v)%Z else v in
+          let v' := if neg then (- Z.of_N v)%Z else Z.of_N v in
           if ((i32_min <=? v') && (v' <=? i32_max))%Z then Ok v'
           else Panic "parse::<i32>: number out of range"
       end
